@@ -39,8 +39,8 @@ def tweak(seed):
     return bytes(t)
 
 
-def build_lock(kind, pk, preimage, timeout, flags='00', hash_size=20, tw=None):
-    env.Clock.now = T0
+def build_lock(kind, pk, preimage, timeout, flags='00', hash_size=20, tw=None, t0=None):
+    env.Clock.now = T0 if t0 is None else t0
     if kind == 'htlc_sha256':
         return T.make_htlc_sha256_lock(pk['receiver'], pk['refund'], preimage, timeout=timeout, sigflags=flags).bytes
     if kind == 'htlc_shake256':
@@ -162,6 +162,44 @@ def time_grid(ctx, case):
                     ctx.state(('time', kind, wk, signer, choice, timeout, dt, dn))
                     judge(ctx, w, lock, cache, want, {'lock': kind, 'block': 'time grid', 'path': 'claim' if choice == 'right' else 'refund'},
                           f'{kind} x {wk} signer={signer} preimage={choice} timeout={timeout} t=deadline{dt:+d} t-now={THR + dn}', now)
+    ctx.evaluations += max(n - 1, 0)
+
+
+DEADLINES = sorted({(1 << b) + d for b in (7, 8, 15, 16, 23, 24, 31, 32, 39, 40, 47, 48, 55, 56, 62, 63, 64) for d in (-1, 0, 1)})
+
+
+def deadline_widths(ctx, case):
+    """deadlines on both sides of every encoding-width boundary of the pushed integer, reached by
+    three (creation time, timeout) decompositions; refund and claim paths at deadline-1, deadline, deadline+1"""
+    kind, D = case
+    seed = ctx.seed
+    sk, pk = keys(seed)
+    sf = fields(seed)
+    tw = tweak(seed)
+    pre = preimages(seed)
+    n = 0
+    decomp = [(D, 0), (D - 1000, 1000)] if D >= 1000 else [(D, 0), (0, D), (D - 1, 1)]
+    if D > T0:
+        decomp.append((T0, D - T0))
+    for t0, timeout in decomp:
+        try:
+            lock = build_lock(kind, pk, pre['right'], timeout, tw=tw, t0=t0)
+        except Exception as e:
+            ctx.violation({'lock': kind, 'block': 'deadline widths', 'clause': 'lock builder raised', 'exc': type(e).__name__},
+                          f'{kind} created at {t0} timeout={timeout}: {e!r}')
+            continue
+        for path, signer, choice in (('refund', 'refund', 'wrong'), ('refund', 'receiver', 'wrong'), ('claim', 'receiver', 'right')):
+            wk = matching_witness(kind, path)
+            w = build_witness(wk, sk, signer, pre[choice], sf, tw=tw)
+            for dt in (-1, 0, 1):
+                t = D + dt
+                now = t
+                env.Clock.now = now
+                n += 1
+                want = model(kind, wk, signer, choice, t, now, D)
+                ctx.state(('width', kind, D, t0, timeout, path, signer, dt))
+                judge(ctx, w, lock, {**sf, 'timestamp': t}, want, {'lock': kind, 'block': 'deadline widths', 'path': path},
+                      f'{kind} x {wk} signer={signer} created at {t0} timeout={timeout} deadline={D} t=deadline{dt:+d}', now)
     ctx.evaluations += max(n - 1, 0)
 
 
@@ -296,7 +334,10 @@ def blocks(tier, seed):
     pl = [(k, ln) for k in KINDS[:4] for ln in lens]
     fl = [(k, f, a) for k in KINDS for f, a in (('00', '00'), ('01', '01'), ('01', '00'), ('80', '81'), ('81', '80'), ('00', 'ff'))]
     cr = [(k, w) for k in KINDS for w in ('htlc', 'htlc2', 'ptlc', 'ptlc_tweaked', 'ptlc_refund')]
+    dw = [(k, D) for k in KINDS for D in DEADLINES]
     return [
+        Block('deadline_widths', dw, deadline_widths, 'lock kind x deadline at 2^b-1, 2^b, 2^b+1 for b in 7..64 step byte/sign boundaries x '
+              '(creation time, timeout) decompositions x path x t=deadline-1..+1', nshards=min(len(dw), 64)),
         Block('time_grid', tg, time_grid, 'lock kind x signer x preimage choice x timeout {0,1,86400} x t=deadline-1..+1 x t-now=59..61', nshards=len(tg)),
         Block('preimage_lengths', pl, preimage_lengths, 'preimage lengths %s x right/wrong x signer; SHAKE digest sizes 1,16,20,32,64' %
               ('1..64'), nshards=min(len(pl), 128)),
@@ -312,6 +353,6 @@ def meta(tier, seed):
         rule='complete grids executed through the real builders and run_auth_scripts; virtual clock = T0 at build time (deadline = T0 + '
              'timeout) and moved before the run; model from the statement + ref.refvm on the same bytes',
         states_meaning='distinct grid points; transitions = scripts run',
-        bounds={'preimage_lengths': '1..64', 'timeouts': [0, 1, 86400], 'slack_threshold': THR},
+        bounds={'preimage_lengths': '1..64', 'timeouts': [0, 1, 86400], 'deadline_widths': '2^b + {-1,0,1}, b in 7,8,15,16,...,62,63,64', 'slack_threshold': THR},
         assumptions=['tweak scalars are valid 255-bit scalars (bit 255 clear)', 'hash preimage resistance / Ed25519 hardness for rejections'],
     )
